@@ -5,6 +5,7 @@ import corr
 import dets
 import gen
 from common import Outcome, close, f2h, h2f, np, rng_for, run_driver
+from props.c14 import snap_val
 
 LEVEL = "proof"
 EXPLANATION = ("Theorems: reset s = init as whole model states for every detector and carrier; run_after_reset. This run: "
@@ -32,6 +33,19 @@ def one_case(out: Outcome, rng, cls: str, p: dict, pre: list, post: list, runner
         return
     at_reset = (bool(a.det.drift), bool(getattr(a.det, "warning", False)))
     a.reset()
+    # structural comparison with a new instance (private attributes included).  A difference is NOT a violation by itself (a cache that never influences an
+    # output may legitimately survive), it directs the search: many more post-reset streams are tried for this (class, configuration, pre-history).
+    extra_posts = []
+    try:
+        fresh_state = snap_val({k: v for k, v in vars(dets.make(cls, p)).items() if k not in ("_callbacks", "_config")})
+        reset_state = snap_val({k: v for k, v in vars(a.det).items() if k not in ("_callbacks", "_config")})
+        if fresh_state != reset_state:
+            out.count("structural_state_differs_after_reset:" + cls)
+            extra_posts = [gen.stream_for(rng, cls, rng.randint(20, 250)) for _ in range(12)]
+            if cls in dets.BINARY_ONLY or cls in dets.UNIT_INTERVAL:      # rises and drops of every size after the reset
+                extra_posts += [[float(b)] * n1 + [float(1 - b)] * n2 for b in (0, 1) for n1 in (10, 40, 120) for n2 in (30, 150)]
+    except Exception:  # noqa: BLE001
+        pass
     k0 = len(a.obs) - 1
     feed(cls, a, post, state)
     b = dets.Runner("a", cls, p)
@@ -46,6 +60,23 @@ def one_case(out: Outcome, rng, cls: str, p: dict, pre: list, post: list, runner
             break
     out.case({"class": cls, "params": p, "pre_len": len(pre), "post_len": len(post), "at_reset": at_reset},
              nontrivial=len(pre) > 0)
+    for xp in extra_posts:          # directed search (see above)
+        if cls in dets.BINARY_ONLY:
+            xp = [int(v) for v in xp]
+        c = dets.Runner("a", cls, p)
+        feed(cls, c, pre)
+        if c.err is not None:
+            break
+        c.reset()
+        kc = len(c.obs) - 1
+        feed(cls, c, xp, state)
+        f = dets.Runner("a", cls, p)
+        feed(cls, f, xp, state)
+        diff = next((j for j, (x, y) in enumerate(zip(c.obs[kc:], f.obs)) if x != y), None)
+        if diff is not None:
+            out.violation(f"{cls}: output differs from a fresh instance at post-reset update {diff} (found by the search directed at a field that survives reset())",
+                          {**rep, "post": xp, "post_index": diff})
+            break
 
 
 def incks_model(out: Outcome, w: int, ref, pre: list, post: list, impl: list) -> None:
